@@ -20,7 +20,7 @@ type CondAtom struct {
 	X, Y ssa.Value
 	Call *ssa.Call // found / callbool / errnil (call producing the error, when direct)
 	Neg  bool
-	If   *ssa.If
+	If   ssa.Instruction // the branch (or, for lifted helpers, the return) where the condition is evaluated
 }
 
 func isNilConst(v ssa.Value) bool {
@@ -1267,3 +1267,129 @@ func SameLoop(a, b *ssa.BasicBlock) bool {
 	}
 	return reachFrom(a, nil, false)[b] && reachFrom(b, nil, false)[a]
 }
+
+// ---- lifting guards through helper functions ----
+
+// LiftGuard extends a guard so that it is also passed by calling a helper that establishes it:
+//   - ErrNil(helper(...))=true where every possibly-nil return of the helper lies behind a pass-edge of the
+//     guard evaluated inside the helper, and
+//   - CallBool(helper(...))=T where every return of the helper that may yield T lies behind such a pass-edge.
+//
+// mk builds the guard for a given function (provenance of helper parameters is resolved through its callers).
+func (p *Program) LiftGuard(mk func(fn *ssa.Function) GuardMatch, depth int) func(fn *ssa.Function) GuardMatch {
+	var lifted func(fn *ssa.Function) GuardMatch
+	memo := map[string]bool{}
+	establishes := func(cal *ssa.Function, wantBool *bool, d int) bool {
+		key := cal.String()
+		if wantBool != nil {
+			key += fmt.Sprint(*wantBool)
+		}
+		if v, ok := memo[key]; ok {
+			return v
+		}
+		memo[key] = false // recursion guard
+		if cal.Blocks == nil || d > depth {
+			return false
+		}
+		g := mk(cal)
+		if d < depth {
+			g = lifted(cal)
+		}
+		removed := p.PassEdges(cal, g)
+		if len(removed) == 0 {
+			return false
+		}
+		ok := true
+		n := 0
+		if wantBool == nil {
+			for _, ri := range p.Returns(cal) {
+				if ri.Class == RetFail {
+					continue
+				}
+				n++
+				if PathExists(cal, removed, cal.Blocks[0].Instrs[0], ri.Ret) {
+					ok = false
+				}
+			}
+		} else {
+			for _, b := range cal.Blocks {
+				ret, isRet := b.Instrs[len(b.Instrs)-1].(*ssa.Return)
+				if !isRet || len(ret.Results) == 0 {
+					continue
+				}
+				// may this return yield *wantBool?
+				may := true
+				if c, isC := ret.Results[0].(*ssa.Const); isC && c.Value != nil {
+					may = (c.Value.ExactString() == "true") == *wantBool
+				}
+				if !may {
+					continue
+				}
+				n++
+				// a forwarded predicate: `return pred(...)` / `return a == b` is the atom itself
+				if _, isC := ret.Results[0].(*ssa.Const); !isC {
+					ca2 := p.normVal(ret.Results[0], false)
+					if atomMatches(g, ca2, *wantBool, ret) {
+						continue
+					}
+				}
+				if PathExists(cal, removed, cal.Blocks[0].Instrs[0], ret) {
+					ok = false
+				}
+			}
+		}
+		memo[key] = ok && n > 0
+		return memo[key]
+	}
+	lifted = func(fn *ssa.Function) GuardMatch {
+		base := mk(fn)
+		return func(ca *CondAtom, truth bool) bool {
+			if base(ca, truth) {
+				return true
+			}
+			if ca.Call == nil {
+				return false
+			}
+			callees := p.Callees(ca.Call)
+			if len(callees) == 0 {
+				return false
+			}
+			switch ca.Kind {
+			case "errnil":
+				if !truth {
+					return false
+				}
+				for _, cal := range callees {
+					if errResultIndex(cal) < 0 || !establishes(cal, nil, 1) {
+						return false
+					}
+				}
+				return true
+			case "callbool":
+				for _, cal := range callees {
+					t := truth
+					if !establishes(cal, &t, 1) {
+						return false
+					}
+				}
+				return true
+			}
+			return false
+		}
+	}
+	return lifted
+}
+
+// atomMatches evaluates a guard on a returned (not branched-on) condition value.
+func atomMatches(g GuardMatch, ca *CondAtom, want bool, at ssa.Instruction) bool {
+	truth := want
+	if ca.Neg {
+		truth = !want
+	}
+	tmp := *ca
+	tmp.If = at
+	return g(&tmp, truth)
+}
+
+// NormCondValue normalises an arbitrary boolean value (not necessarily a branch condition).
+func (p *Program) NormCondValue(v ssa.Value) *CondAtom { return p.normVal(v, false) }
